@@ -532,3 +532,129 @@ def shrink(ops, fails_fn, wellformed=lambda o: True, budget=400):
 
 def new_fails(fails):
     return [f for f in fails if not f["triggers"]]
+
+
+# ------------------------------------------------------------------ the msgstorage pipeline shared by C04, C17 (store half), C05 (store clause)
+def load_witnesses(path):
+    out = []
+    if os.path.exists(path):
+        for l in open(path):
+            l = l.strip()
+            if l and not l.startswith("#"):
+                out.append(l.split("|"))
+    return out
+
+
+def msg_fails(c, clauses, iso):
+    fl = [f for f in judge_msg(c) if f["clause"] in clauses]
+    if iso:
+        fl += judge_isolation(c)
+    return fl
+
+
+def run_msg_pipeline(res, prop, props_v, checker, clauses, plan, iso=False, corpus_dir=None, tag=None):
+    """translator -> proofs -> harness -> witnesses + corpus + generated cases -> model in Coq -> judges -> verdict.
+    plan: list of (engine, gen dict).  clauses: which clauses of judge_msg belong to this property."""
+    tag = tag or prop
+    st, shapes = translator_status()
+    res.cov.setdefault("translator", {})
+    res.cov["translator"].update({"files": st, "shapes": {k: v for k, v in shapes.items() if k.startswith(("msgstorage/", "storage/"))}})
+    pr = vlib.coq_check_props(props_v, runners=[RUNNER])
+    res.add_proof(pr, checker)
+    exe = build()
+    work = vlib.workdir(tag)
+    try:
+        confirmed, wit_cases = {}, []
+        for w in load_witnesses(os.path.join(corpus_dir, "witnesses.txt")) if corpus_dir else []:
+            fid, trig, eng, confirm, ops = w
+            line = run_harness(exe, "msg", eng, lines=["%s|%s" % (confirm, ops)], work=work)[0]
+            c = Case("msg", line)
+            wit_cases.append(c)
+            fl = msg_fails(c, clauses | {"purged"}, iso)
+            hit = [f for f in fl if trig in f["triggers"]]
+            if hit:
+                confirmed.setdefault(fid, []).append("%s (%s): %s" % (trig, eng, hit[0]["what"][:170]))
+        for fid, whats in sorted(confirmed.items()):
+            res.known_finding(fid, "; ".join(sorted(set(w.split(":")[0] for w in whats))) + " -- e.g. " + whats[0])
+        cases = list(wit_cases)
+        corpus_lines = [("|".join(l[-2:]), l[-3]) for l in load_witnesses(os.path.join(corpus_dir, "cases.txt"))] if corpus_dir else []
+        for inp, eng in corpus_lines:
+            cases.append(Case("msg", run_harness(exe, "msg", eng, lines=[inp], work=work)[0]))
+        dist, gen_cases = {}, []
+        for eng, g in plan:
+            lines = run_harness(exe, "msg", eng, gen=g, work=work)
+            gen_cases += [Case("msg", l) for l in lines]
+            dist["%s-%s%s" % (eng, "safe" if g.get("safe") else "hostile", "-iso" if g.get("iso") else "")] = len(lines)
+        cases += gen_cases
+        bad = model_mismatches(cases, tag) if pr["runners_ok"] else None
+        new, known_hits, nontrivial = [], 0, set()
+        for i, c in enumerate(cases):
+            fl = msg_fails(c, clauses, iso and "DUMP PEND F:" in c.line)
+            nf = new_fails(fl)
+            if nf:
+                new.append((i, nf))
+            known_hits += len(fl) - len(nf)
+            # non-trivial: a batch wrote something and a later kill or purge was followed by a recover that listed messages
+            if any(o.startswith("s:") or ",s:" in o for o in c.outs) and any(op in ("K",) or op.startswith("P:") for op in c.ops) \
+                    and any(op.startswith("R:") and "m:" in o for op, o in zip(c.ops, c.outs)):
+                nontrivial.add(c.line)
+        res.cov["evaluations"] += len(cases)
+        res.cov["distinct_nontrivial"] += len(nontrivial)
+        res.cov["rule"] = (res.cov.get("rule", "") + " | " if res.cov.get("rule") else "") + (
+            "%s: API-level differential runs of the real msgstorage.MsgStorage (persist driven through the verif hook, split at its two unlocked windows by "
+            "callbacks inside ProcessBatch; Kill = drop the object without persist and reopen the engine) over a recording in-memory engine, real badger and real buntdb "
+            "against the Coq model Store/MsgStore.v (vm_compute): batches, relays, iteration results, engine key sets and pending maps compared; every trace also judged by the "
+            "python statement (clauses %s%s); queue names hostile ('.', '_', '/', empty, prefixes of one another) or separator-free; non-trivial = a batch wrote, a kill or "
+            "purge followed, and a later recover listed messages; distinct = distinct case lines" % (tag, sorted(clauses), " + isolation" if iso else ""))
+        res.cov.setdefault("generator_distribution", {}).update({tag + ":" + k: v for k, v in dist.items()})
+        res.cov["samples"] = (res.cov.get("samples") or []) + [c.line[:400] for c in (gen_cases[:1] + gen_cases[-1:])]
+        res.cov["traces_validated_against_impl"] += len(cases) - (len(bad) if bad else 0)
+        res.cov["judge_failures_attributed_to_known_findings"] = res.cov.get("judge_failures_attributed_to_known_findings", 0) + known_hits
+        res.cov["exhaustive"] = False
+        unrec = [f for f, s in st.items() if s.get("status") != "ok"]
+        if unrec:
+            res.notes.append("translator did not recognise %s: the property stands on the hand model + correspondence" % unrec)
+        if pr["ok"] and bad == [] and not new:
+            return
+        what = []
+        if not pr["ok"]:
+            what.append("proof obligation no longer checks: %s: %s" % (pr.get("failed_file"), pr.get("error", "")[:400]))
+        if bad:
+            what.append("correspondence msgstorage model/implementation differs on %d cases (first: %s)" % (len(bad), cases[bad[0]].line[:300]))
+        if bad is None:
+            what.append("model runner does not build")
+        if new:
+            i, nf = new[0]
+            c = cases[i]
+            is_iso = iso and "DUMP PEND F:" in c.line
+
+            def fails(ops):
+                l2 = run_harness(exe, "msg", c.engine, lines=["%s|%s" % (c.confirm, " ".join(ops))], work=work)[0]
+                return bool(new_fails(msg_fails(Case("msg", l2), clauses, is_iso)))
+            ops = shrink(c.ops, fails, wellformed=msg_ops_wellformed, budget=150 if c.engine != "rec" else 400)
+            line = run_harness(exe, "msg", c.engine, lines=["%s|%s" % (c.confirm, " ".join(ops))], work=work)[0]
+            fl = new_fails(msg_fails(Case("msg", line), clauses, is_iso)) or nf
+            res.violation(dict(kind="msg-ops", engine=c.engine, confirm=c.confirm, ops=ops, iso=is_iso, clauses=sorted(clauses), implementation_line=line,
+                               failed=["%s: %s" % (f["clause"], f["what"]) for f in fl][:5], broken=what,
+                               replay_cmd="harness/bin/stores msg-batch -engine %s  <<< '%s|%s'" % (c.engine, c.confirm, " ".join(ops))),
+                          True, "msgstorage violates %s: %s" % (fl[0]["clause"], fl[0]["what"][:300]))
+        else:
+            first = cases[bad[0]] if bad else None
+            res.violation(dict(kind="obligation", broken=what, translator=st, smallest_disagreeing_case=first.line if first else None,
+                               model_outputs=model_outputs_text(first, tag + "r") if first else None), False, "; ".join(what))
+    finally:
+        shutil.rmtree(work, ignore_errors=True)
+
+
+def replay_msg(r):
+    exe = build()
+    work = vlib.workdir("replay")
+    try:
+        line = run_harness(exe, "msg", r["engine"], lines=["%s|%s" % (r["confirm"], " ".join(r["ops"]))], work=work)[0]
+    finally:
+        shutil.rmtree(work, ignore_errors=True)
+    print("implementation:", line)
+    fl = msg_fails(Case("msg", line), set(r.get("clauses", [])), r.get("iso"))
+    for f in fl:
+        print("judge:", f["clause"], f["what"], "triggers:", f["triggers"])
+    return 1 if new_fails(fl) else 0
